@@ -54,7 +54,7 @@ impl MergeCtx {
             // such Aps are always preceded by Fold where corresponding stream could be used
             // so it's been already checked that res_generation is well-formed
             // and accessing 0th element is safe here
-            ExecutedState::Ap(ap_result) => Ok(ap_result.res_generations[0]),
+            ExecutedState::Ap(ap_result) if !ap_result.res_generations.is_empty() => Ok(ap_result.res_generations[0]),
             state => Err(KeeperError::NoStreamState { state: state.clone() }),
         }
     }
